@@ -602,6 +602,18 @@ impl Locale {
             // `_one` / `_other` alone give an empty base key: an invalid key, not an internal error.
             let key = Key::try_new(&base_key)?;
             key_path.push_key(key);
+            // a `null` form can't be rendered, and defaulting only makes sense for a whole key.
+            let has_null_form = matches!(other, ParsedValue::Default)
+                || plurals
+                    .values()
+                    .any(|(_, _, value)| matches!(value, ParsedValue::Default));
+            if has_null_form {
+                return Err(Error::PluralExplicitDefault {
+                    locale: locale.clone(),
+                    key_path: std::mem::take(key_path),
+                }
+                .into());
+            }
             if !cfg!(feature = "plurals") && !SKIP_ICU_CFG.get() {
                 return Err(Error::DisabledPlurals {
                     locale: locale.clone(),
